@@ -172,7 +172,7 @@ fn parse_a2ml_type_enum(
 ) -> (Option<String>, BaseType) {
     let enum_typename: Option<String> = parse_optional_name(token_iter);
 
-    if let Some(TokenTree::Group(_)) = token_iter.peek() {
+    if next_is_brace_group(token_iter) {
         // parse the list of enum items
         let enum_tokens = get_group(token_iter, Delimiter::Brace);
         let enum_token_iter = &mut enum_tokens.into_iter().peekable();
@@ -244,7 +244,7 @@ fn parse_a2ml_type_struct(
     let struct_typename: Option<String> = parse_optional_name(token_iter);
 
     // check if there is definition of the struct enclosed in {} or if is a reference to a previous declaration
-    if let Some(TokenTree::Group(_)) = token_iter.peek() {
+    if next_is_brace_group(token_iter) {
         // parse the struct elements
         let struct_tokens = get_group(token_iter, Delimiter::Brace);
         let struct_token_iter = &mut struct_tokens.into_iter().peekable();
@@ -295,7 +295,7 @@ fn parse_a2ml_type_taggedstruct(
     let typename: Option<String> = parse_optional_name(token_iter);
 
     // check if there is definition of the taggedstruct enclosed in {} or if is a reference to a previous declaration
-    if let Some(TokenTree::Group(_)) = token_iter.peek() {
+    if next_is_brace_group(token_iter) {
         // parse the struct elements
         let ts_tokens = get_group(token_iter, Delimiter::Brace);
         let ts_token_iter = &mut ts_tokens.into_iter().peekable();
@@ -342,7 +342,7 @@ fn parse_a2ml_type_taggedunion(
     let typename: Option<String> = parse_optional_name(token_iter);
 
     // check if there is definition of the taggedunion enclosed in {} or if is a reference to a previous declaration
-    if let Some(TokenTree::Group(_)) = token_iter.peek() {
+    if next_is_brace_group(token_iter) {
         // parse the union elements
         let tu_tokens = get_group(token_iter, Delimiter::Brace);
         let tu_token_iter = &mut tu_tokens.into_iter().peekable();
@@ -516,6 +516,13 @@ fn parse_a2ml_member(
     }
 
     (typename, base_type, varname)
+}
+
+// next_is_brace_group()
+// is the next token the { } group of a type definition? A reference to a named type can be followed
+// by other groups, e.g. the dimension of an array ("enum Mode[2]")
+fn next_is_brace_group(token_iter: &mut TokenStreamIter) -> bool {
+    matches!(token_iter.peek(), Some(TokenTree::Group(g)) if g.delimiter() == Delimiter::Brace)
 }
 
 // parse_optional_name()
